@@ -415,6 +415,7 @@ type vTransCli struct {
 	mu     sync.Mutex
 	tail   []byte
 	bin    []*vTransFrame
+	taken  []bool // binary: consumed by the script (by match: independent streams may interleave in any order)
 	txt    [][]string
 	used   int
 	eof    bool
@@ -447,6 +448,7 @@ func (c *vTransCli) loop() {
 				var fs []*vTransFrame
 				fs, c.tail = vTransSplit(c.tail, false)
 				c.bin = append(c.bin, fs...)
+				c.taken = append(c.taken, make([]bool, len(fs))...)
 			} else {
 				for {
 					vals, k := vTransRESP(c.tail)
@@ -832,40 +834,104 @@ func (x *vTransRun) replica(q *vTransReq) string {
 
 // ---- collecting what happened
 
-// client frames not consumed yet, canonical; lock/unlock results are remembered by token
-func (x *vTransRun) takeClient(c *vTransConn) []string { return x.takeClientN(c, 1<<30) }
+// binary: has the client an unconsumed frame carrying this token as RequestId?
+func (x *vTransRun) hasTok(c *vTransConn, tok int) bool {
+	c.cli.mu.Lock()
+	defer c.cli.mu.Unlock()
+	for i, g := range c.cli.bin {
+		if !c.cli.taken[i] && x.w.tokOf(g.raw[3:19]) == strconv.Itoa(tok) {
+			return true
+		}
+	}
+	return false
+}
 
-// does the first frame the client has not consumed yet answer the leader's frame f? (binary: same type and RequestId)
+// has the client received an answer to whatever it is the script waits for? binary: a frame with the token; text: any frame
+func (x *vTransRun) answeredTok(c *vTransConn, tok int) bool {
+	if c.kind == 'b' {
+		return x.hasTok(c, tok)
+	}
+	c.cli.mu.Lock()
+	defer c.cli.mu.Unlock()
+	return c.cli.used < len(c.cli.txt)
+}
+
+// does the client hold an unconsumed frame answering the leader's frame f? (binary: same type and RequestId; text: any)
 func (x *vTransRun) peekMatch(c *vTransConn, f *vTransFrame) bool {
 	c.cli.mu.Lock()
 	defer c.cli.mu.Unlock()
 	if c.kind == 't' {
 		return c.cli.used < len(c.cli.txt)
 	}
-	if c.cli.used >= len(c.cli.bin) {
-		return false
+	for i, g := range c.cli.bin {
+		if !c.cli.taken[i] && g.raw[2] == f.raw[2] && string(g.raw[3:19]) == string(f.raw[3:19]) {
+			return true
+		}
 	}
-	g := c.cli.bin[c.cli.used]
-	return g.raw[2] == f.raw[2] && string(g.raw[3:19]) == string(f.raw[3:19])
+	return false
 }
 
-func (x *vTransRun) takeClientN(c *vTransConn, max int) []string {
+// binary: consume (in arrival order) up to max unconsumed frames satisfying pred; canonical texts and the frames
+func (x *vTransRun) takeBin(c *vTransConn, pred func(*vTransFrame) bool, max int) ([]string, []*vTransFrame) {
+	var out []string
+	var fs []*vTransFrame
+	c.cli.mu.Lock()
+	defer c.cli.mu.Unlock()
+	for i, f := range c.cli.bin {
+		if c.cli.taken[i] || len(out) >= max || !pred(f) {
+			continue
+		}
+		c.cli.taken[i] = true
+		s := vTransResStr(f, x.w.tokOf)
+		out = append(out, fmt.Sprintf("%d>%s", c.idx, s))
+		fs = append(fs, f)
+		if f.raw[2] == protocol.COMMAND_LOCK || f.raw[2] == protocol.COMMAND_UNLOCK {
+			if t, err := strconv.Atoi(x.w.tokOf(f.raw[3:19])); err == nil {
+				x.results[t] = append(x.results[t], s)
+			}
+		}
+	}
+	return out, fs
+}
+
+// the frames answering token `tok` (binary) / the next frames (text)
+func (x *vTransRun) takeTok(c *vTransConn, tok int) ([]string, *vTransFrame) {
+	if c.kind == 't' {
+		return x.takeText(c, 1<<30), nil
+	}
+	out, fs := x.takeBin(c, func(f *vTransFrame) bool { return x.w.tokOf(f.raw[3:19]) == strconv.Itoa(tok) }, 1<<30)
+	if len(fs) > 0 {
+		return out, fs[0]
+	}
+	return out, nil
+}
+
+// the frame answering the leader's frame f
+func (x *vTransRun) takeMatch(c *vTransConn, f *vTransFrame) ([]string, *vTransFrame) {
+	if c.kind == 't' {
+		return x.takeText(c, 1), nil
+	}
+	out, fs := x.takeBin(c, func(g *vTransFrame) bool { return g.raw[2] == f.raw[2] && string(g.raw[3:19]) == string(f.raw[3:19]) }, 1)
+	if len(fs) > 0 {
+		return out, fs[0]
+	}
+	return out, nil
+}
+
+// binary frames nobody consumed (there should be none: everything a client receives is attributed to an event)
+func (x *vTransRun) leftovers(c *vTransConn) []string {
+	if c.kind != 'b' {
+		return nil
+	}
+	out, _ := x.takeBin(c, func(*vTransFrame) bool { return true }, 1<<30)
+	return out
+}
+
+// text: the next frames of the connection, canonical
+func (x *vTransRun) takeText(c *vTransConn, max int) []string {
 	var out []string
 	c.cli.mu.Lock()
 	defer c.cli.mu.Unlock()
-	if c.kind == 'b' {
-		for ; c.cli.used < len(c.cli.bin) && len(out) < max; c.cli.used++ {
-			f := c.cli.bin[c.cli.used]
-			s := vTransResStr(f, x.w.tokOf)
-			out = append(out, fmt.Sprintf("%d>%s", c.idx, s))
-			if f.raw[2] == protocol.COMMAND_LOCK || f.raw[2] == protocol.COMMAND_UNLOCK {
-				if t, err := strconv.Atoi(x.w.tokOf(f.raw[3:19])); err == nil {
-					x.results[t] = append(x.results[t], s)
-				}
-			}
-		}
-		return out
-	}
 	for ; c.cli.used < len(c.cli.txt) && len(out) < max; c.cli.used++ {
 		v := c.cli.txt[c.cli.used]
 		s := "?" + strings.Join(v, " ")
@@ -996,6 +1062,7 @@ func (x *vTransRun) evClose(c *vTransConn) {
 	if c.closed {
 		return
 	}
+	x.settle()
 	if c.kind == 't' && c.awaiting >= 0 {
 		// the handler is blocked in <-lockWaiter: the close is noticed only when the answer is written
 		c.cli.close()
@@ -1016,6 +1083,7 @@ func (x *vTransRun) evClose(c *vTransConn) {
 }
 
 func (x *vTransRun) evRole(state uint8) {
+	x.settle()
 	letters := map[uint8]string{STATE_INIT: "i", STATE_LEADER: "l", STATE_FOLLOWER: "f", STATE_SYNC: "s", STATE_CONFIG: "c", STATE_VOTE: "v", STATE_CLOSE: "x"}
 	x.w.F.s.updateState(state)
 	x.role = state
@@ -1070,13 +1138,17 @@ func (x *vTransRun) evLinkDown(c *vTransConn) {
 	if !x.linkAlive(c) {
 		return
 	}
+	x.settle()
+	if !x.linkAlive(c) {
+		return
+	}
 	expect := x.expectsRollback(c)
 	hadInit := c.linkInit >= 0
-	n0 := c.cli.count()
+	latest := c.latest
 	nl := len(x.w.px.snapshot())
 	c.link.cut()
 	if expect {
-		x.waitFor(func() bool { return c.cli.count() > n0 }, 4*time.Second)
+		x.waitFor(func() bool { return x.answeredTok(c, latest) }, 4*time.Second)
 	}
 	if x.nonLeader() && x.addr == 1 {
 		// the detached link object reconnects (and re-sends its INIT)
@@ -1086,7 +1158,7 @@ func (x *vTransRun) evLinkDown(c *vTransConn) {
 		}
 	}
 	time.Sleep(3 * time.Millisecond)
-	cl := x.takeClient(c)
+	cl, _ := x.takeTok(c, latest)
 	if c.kind == 't' && len(cl) > 0 {
 		c.awaiting, c.awaitReq = -1, nil
 	}
@@ -1097,24 +1169,24 @@ func (x *vTransRun) evLinkDown(c *vTransConn) {
 
 func (x *vTransRun) evLeader(a int) {
 	addrs := []string{"", x.w.px.addr, x.w.deadAddr}
+	x.settle()
 	old := x.addr
 	var waitOn []*vTransConn
-	var counts []int
+	latest := map[*vTransConn]int{}
 	if a != old || a == 0 {
 		for _, c := range x.conns {
+			latest[c] = c.latest
 			if x.expectsRollback(c) {
 				waitOn = append(waitOn, c)
-				counts = append(counts, c.cli.count())
 			}
 		}
 	}
 	x.w.F.s.replicationManager.leaderAddress = addrs[a]
 	_ = x.w.manager().ChangeLeader(addrs[a])
 	x.addr = a
-	for i, c := range waitOn {
-		n0 := counts[i]
+	for _, c := range waitOn {
 		cc := c
-		x.waitFor(func() bool { return cc.cli.count() > n0 }, 4*time.Second)
+		x.waitFor(func() bool { return x.answeredTok(cc, latest[cc]) }, 4*time.Second)
 	}
 	var cl []string
 	if a != old || a == 0 {
@@ -1126,14 +1198,15 @@ func (x *vTransRun) evLeader(a int) {
 		}
 		time.Sleep(3 * time.Millisecond)
 		for _, c := range x.conns {
-			got := x.takeClient(c)
+			if c.link == nil {
+				continue
+			}
+			got, _ := x.takeTok(c, latest[c])
 			if c.kind == 't' && len(got) > 0 {
 				c.awaiting, c.awaitReq = -1, nil
 			}
 			cl = append(cl, got...)
-			if c.link != nil {
-				x.afterLinkLoss(c)
-			}
+			x.afterLinkLoss(c)
 		}
 		fw := x.takeForwarded(nil)
 		x.ev(fmt.Sprintf("l %d", a), vTransJoin(cl)+"|"+vTransJoin(fw))
@@ -1232,8 +1305,21 @@ func (x *vTransRun) evLeaderFrames(c *vTransConn) {
 		}
 		if expect && fresh {
 			// the reader goroutine of a fresh link may have read this frame before CheckClient attached the link object to the
-			// connection (`serverProtocol == nil`): then it was dropped unseen and will never be relayed
-			x.waitFor(func() bool { return x.peekMatch(c, f) }, 250*time.Millisecond)
+			// connection (`serverProtocol == nil`): then it was dropped unseen and will never be relayed. The reader handles the
+			// frames of a link in order: once the relay of a LATER frame of this link has reached the client, this one is settled.
+			// (Only when there is no later frame the verdict "dropped" rests on a 3 s silence.)
+			laterRelayed := func() bool {
+				l.mu.Lock()
+				later := append([]*vTransFrame{}, l.down[l.downUsed:]...)
+				l.mu.Unlock()
+				for _, g := range later {
+					if x.peekMatch(c, g) {
+						return true
+					}
+				}
+				return false
+			}
+			x.waitFor(func() bool { return x.peekMatch(c, f) || laterRelayed() }, 3*time.Second)
 		} else if expect {
 			x.waitFor(func() bool { return x.peekMatch(c, f) }, 4*time.Second)
 		} else {
@@ -1242,12 +1328,7 @@ func (x *vTransRun) evLeaderFrames(c *vTransConn) {
 		var got *vTransFrame
 		var cl []string
 		if (expect || c.kind == 'b') && x.peekMatch(c, f) {
-			c.cli.mu.Lock()
-			if c.kind == 'b' {
-				got = c.cli.bin[c.cli.used]
-			}
-			c.cli.mu.Unlock()
-			cl = x.takeClientN(c, 1)
+			cl, got = x.takeMatch(c, f)
 		}
 		if fresh && len(cl) == 0 {
 			op = "rx" + op[1:]
@@ -1350,11 +1431,12 @@ func (x *vTransRun) stillLatest(c *vTransConn, f *vTransFrame) bool {
 	}
 	var rid [16]byte
 	copy(rid[:], f.raw[3:19])
-	for i := 0; i < 50; i++ {
-		if o.latestRequestId == rid {
-			break
-		}
-		time.Sleep(100 * time.Microsecond) // Write has not got to its bookkeeping yet
+	// Write records (type, then RequestId) right after the bytes left; the relay the client already holds was written AFTER the
+	// reader's comparison with latestRequestId. So once latestRequestId shows this command, both sides are done and the type tells
+	// which came first: still set = the answer overtook the bookkeeping.
+	end := time.Now().Add(2 * time.Second)
+	for o.latestRequestId != rid && time.Now().Before(end) {
+		time.Sleep(50 * time.Microsecond)
 	}
 	return o.latestRequestId == rid && o.latestCommandType != 0xff
 }
@@ -1371,7 +1453,10 @@ func (x *vTransRun) plainFirst(c *vTransConn, q *vTransReq, got string) {
 	}
 	b := d.raw
 	want := fmt.Sprintf("%d>T:%d,%s,%d,%d,%d,%d", c.idx, b[19], vTransNum(b[22:38]), vTransLE16(b[54:56]), (vTransLE16(b[56:58])+1)%65536, b[58], (int(b[59])+1)%256)
-	if !strings.HasPrefix(got, fmt.Sprintf("%d>T:%d,", c.idx, b[19])) {
+	if strings.HasPrefix(got, fmt.Sprintf("%d>T:%d,", c.idx, protocol.RESULT_STATE_ERROR)) {
+		// refused with STATE_ERROR (by the node's own engine): the statement allows a non-leader to refuse instead of forwarding
+		x.out.stat("observed:C10:refused-first-text-command")
+	} else if !strings.HasPrefix(got, fmt.Sprintf("%d>T:%d,", c.idx, b[19])) {
 		x.report("C10:outcome-differs-via-follower:first-text-command", fmt.Sprintf("the first command of a text connection (it fits the first 64-byte read) `%s` was answered %s by the follower's own handlers, never forwarded; the same command sent to the leader: %s",
 			x.reqOp1(c, q, "n"), got, want))
 	}
@@ -1386,6 +1471,13 @@ func (x *vTransRun) oracleUnlockOnly(key, lockid int) {
 	b := make([]byte, 64)
 	_ = c.Encode(b)
 	_ = x.w.oracle.write(b)
+}
+
+// before an event: whatever the leader has answered meanwhile is recorded first (a queued request whose twin has been
+// answered on the oracle has been answered on its link too)
+func (x *vTransRun) settle() {
+	x.wakeWaiters()
+	x.drain()
 }
 
 // every connection: leader frames that arrived meanwhile (grants of queued requests, time-outs)
@@ -1427,6 +1519,7 @@ func (x *vTransRun) evRequest(c *vTransConn, q *vTransReq) {
 	if q.typ == 'I' {
 		c.initTok, c.initCid = q.tok, q.cid
 	}
+	x.settle()
 	x.current = c
 	defer func() { x.current = nil }()
 	rep := x.replica(q)
@@ -1461,9 +1554,8 @@ func (x *vTransRun) evRequest(c *vTransConn, q *vTransReq) {
 		wire = make([]byte, 64)
 		_ = pc.Encode(wire)
 	}
-	n0 := c.cli.count()
 	_ = c.cli.write(wire)
-	x.waitFor(func() bool { return c.cli.count() > n0 || x.forwardSeen(q.tok) }, 5*time.Second)
+	x.waitFor(func() bool { return x.answeredTok(c, q.tok) || x.forwardSeen(q.tok) }, 5*time.Second)
 	fw := x.takeForwarded(c)
 	if len(fw) == 0 {
 		time.Sleep(time.Millisecond)
@@ -1472,17 +1564,11 @@ func (x *vTransRun) evRequest(c *vTransConn, q *vTransReq) {
 	var first *vTransFrame
 	var cl []string
 	if len(fw) == 0 {
-		c.cli.mu.Lock()
-		if c.kind == 'b' && c.cli.used < len(c.cli.bin) {
-			first = c.cli.bin[c.cli.used]
-		}
-		c.cli.mu.Unlock()
-		cl = x.takeClient(c)
+		cl, first = x.takeTok(c, q.tok)
 	} else if c.kind == 't' && q.mode == 'p' {
-		x.waitFor(func() bool { return x.peekMatch(c, nil) }, 4*time.Second) // the +OK of PUSH
-		cl = x.takeClientN(c, 1)
+		x.waitFor(func() bool { return x.answeredTok(c, q.tok) }, 4*time.Second) // the +OK of PUSH
+		cl = x.takeText(c, 1)
 	} // else: whatever the client receives from now on is the relay of a leader frame (`r` events)
-	_ = n0
 	after := x.w.F.digest()
 	if f := x.fwdFrames[q.tok]; c.kind == 't' && f != nil && q.mode == 'v' {
 		// the command the text converter built for SET (an input of the model): read off the wire
@@ -1574,7 +1660,7 @@ func (x *vTransRun) evRequest(c *vTransConn, q *vTransReq) {
 		}
 		// the same command directly to the leader; does the leader answer at once?
 		x.sendTwin(q.tok)
-		if x.waitFor(func() bool { return x.twinAnswered(q.tok) }, 150*time.Millisecond) {
+		if x.waitFor(func() bool { return x.twinAnswered(q.tok) }, 300*time.Millisecond) {
 			x.awaitGrant(c, q.tok)
 		}
 	} else if len(fw) > 0 {
@@ -2096,6 +2182,13 @@ func vTransCase(w *vTransWorld, out *vOut, seed int64, idx int, script int) {
 			}
 		}
 	}()
+	for _, c := range x.conns {
+		if left := x.leftovers(c); len(left) > 0 {
+			x.report("C10:harness-unattributed-frame", fmt.Sprintf("connection %d received %s, which no event of the script accounts for", c.idx, strings.Join(left, " ")))
+			x.obs = append(x.obs, "unattributed:"+strings.Join(left, "+"))
+			x.ops = append(x.ops, "?")
+		}
+	}
 	var toks []int
 	for t := range x.results {
 		toks = append(toks, t)
